@@ -5,8 +5,10 @@
     emits and what one pass of the `DHCPParseOptions` loop (`dhcpBody`) makes of it;
   * option lists: the encoder's three passes (`optBytes`, `hasEnd`, `optLens`) and the decoder loop over the
     concatenated wire forms, with and without the end marker behind them (`dhcp_parse_end`, `dhcp_parse_exact`);
-  * the 240-byte fixed part: `dhcpFixed`, and `DHCP.Write` on `dhcpFixed … ++ optionBytes` (`dhcp_write_fixed`);
-    `DHCP.Read`'s buffer for a message whose options are carryable (`dhcp_readBuf`), `DHCP.Len` (`dhcp_len`).
+  * the 240-byte fixed part: `dhcpFixed` (addresses in their 4-byte wire form `PDHCP.ip4`: `ip4_four`, `ip4_mapped`,
+    `ip4_other`), and `DHCP.Write` on `dhcpFixed … ++ optionBytes` (`dhcp_write_fixed`, `dhcp_write_fixed_gen`);
+    `DHCP.Read`'s buffer for a message whose options are carryable (`dhcp_readBuf`), `DHCP.Len` (`dhcp_len`,
+    `dhcp_len_end`: `Len()` = number of bytes, pad and explicit end options counting 1).
 -/
 import OFV.Model.Proto
 import OFV.Lemmas.Size
@@ -102,14 +104,10 @@ def dhcpOptWire : V → Bytes
 
 def dhcpOptsWire (os : List V) : Bytes := (os.map dhcpOptWire).flatten
 
-/-- what `dhcpoption.Len()` reports: data length + 2, whatever the tag -/
+/-- what `dhcpoption.Len()` reports for a carryable option: 1 for a pad option (the lone tag byte), data length + 2
+    otherwise — the number of bytes of the wire form (`dhcp_wire_len`) -/
 def dhcpOptLen : V → Nat
-  | .obj "p.dhcpoption" [_, .bytes d] => d.length + 2
-  | _ => 0
-
-/-- 1 for a pad option -/
-def dhcpPad : V → Nat
-  | .obj "p.dhcpoption" [.num t, _] => if t = 0 then 1 else 0
+  | .obj "p.dhcpoption" [.num t, .bytes d] => if t = 0 then 1 else d.length + 2
   | _ => 0
 
 theorem dhcp_one (o : V) : dhcpOptsWire [o] = dhcpOptWire o := by simp [dhcpOptsWire]
@@ -138,11 +136,19 @@ theorem dhcp_marshalOption (o : V) (h : DhcpOptOK o) : PDhcpOpt.marshalOption o 
   · subst h0; rfl
   · simp [h0]; omega
 
-theorem dhcp_wire_len (o : V) (h : DhcpOptOK o) : (dhcpOptWire o).length + dhcpPad o = dhcpOptLen o ∧ 1 ≤ (dhcpOptWire o).length := by
+theorem dhcp_wire_len (o : V) (h : DhcpOptOK o) : (dhcpOptWire o).length = dhcpOptLen o ∧ 1 ≤ (dhcpOptWire o).length := by
   obtain ⟨t, d, rfl, h1, h2, h3⟩ := dhcp_opt_shape o h
   by_cases h0 : t = 0
-  · subst h0; simp [dhcpOptWire, dhcpPad, dhcpOptLen, h3 rfl]
-  · simp [dhcpOptWire, dhcpPad, dhcpOptLen, h0]
+  · subst h0; simp [dhcpOptWire, dhcpOptLen]
+  · simp [dhcpOptWire, dhcpOptLen, h0]
+
+/-- `dhcpoption.Len()` of a carryable option -/
+theorem dhcp_opt_len (o : V) (h : DhcpOptOK o) : PDhcpOpt.len o = .ok (n16 (dhcpOptLen o)) := by
+  obtain ⟨t, d, rfl, h1, h2, h3⟩ := dhcp_opt_shape o h
+  simp only [PDhcpOpt.len, PDhcpOpt.tag, PDhcpOpt.data, Res.bind_ok, dhcp_isPadOrEnd t h1, dhcpOptLen]
+  by_cases h0 : t = 0
+  · subst h0; rfl
+  · simp [h0]
 
 
 /-- the encoder's passes over a list of carryable options: their wire forms in order, no end marker among them, and the
@@ -150,7 +156,7 @@ theorem dhcp_wire_len (o : V) (h : DhcpOptOK o) : (dhcpOptWire o).length + dhcpP
 theorem dhcp_opts_enc (os : List V) (hwf : ∀ o ∈ os, DhcpOptOK o) :
     PDHCP.optBytes os = .ok (dhcpOptsWire os) ∧ PDHCP.hasEnd os = .ok false ∧
       PDHCP.optLens os = .ok (os.map (fun o => n16 (dhcpOptLen o))) ∧
-      (dhcpOptsWire os).length + (os.map dhcpPad).sum = (os.map dhcpOptLen).sum ∧ os.length ≤ (dhcpOptsWire os).length := by
+      (dhcpOptsWire os).length = (os.map dhcpOptLen).sum ∧ os.length ≤ (dhcpOptsWire os).length := by
   induction os with
   | nil => exact ⟨rfl, rfl, rfl, rfl, Nat.le_refl _⟩
   | cons o os ih =>
@@ -163,8 +169,7 @@ theorem dhcp_opts_enc (os : List V) (hwf : ∀ o ∈ os, DhcpOptOK o) :
       simp only [PDHCP.hasEnd, PDhcpOpt.tag, i2, Res.bind_ok, n8_toNat t (by omega), Gen.protocol.DHCP_OPT_END]
       have e : (t == 255) = false := by simp; omega
       rw [e]; rfl
-    · obtain ⟨t, d, rfl, h1, h2, h3⟩ := dhcp_opt_shape o ho
-      simp only [PDHCP.optLens, PDhcpOpt.len, PDhcpOpt.data, i3, Res.bind_ok]; rfl
+    · simp only [PDHCP.optLens, dhcp_opt_len o ho, i3, Res.bind_ok]; rfl
     · simp only [dhcpOptsWire_cons, List.length_append, List.map_cons, List.sum_cons]; omega
     · simp only [dhcpOptsWire_cons, List.length_append, List.length_cons]; omega
 
@@ -281,19 +286,46 @@ theorem dhcp_parse_exact (os : List V) (hwf : ∀ o ∈ os, DhcpOptOK o) (spare 
   rw [this, goLoop_stop _ _ _ _ _ (by simp [dhcpCond])]
   rfl
 
-/-- the 240-byte fixed part of a DHCP message as `DHCP.Read` writes it -/
+/-- the 240-byte fixed part of a DHCP message as `DHCP.Read` writes it: every address in its 4-byte wire form
+    (`dhcpIP4`: `To4()` copied into four zero bytes) -/
 def dhcpFixed (op ht hl ho xid secs fl : Nat) (cip yip sip gip hw sname file : Bytes) : Bytes :=
   [n8 op, n8 ht, n8 hl, n8 ho] ++ be32 (n32 xid) ++ be16 (n16 secs) ++ be16 (n16 fl)
-    ++ cip ++ yip ++ sip ++ gip ++ copyInto (zeros 16) hw ++ pFitTo 64 sname ++ pFitTo 128 file ++ be32 PDHCP.magic
+    ++ PDHCP.ip4 cip ++ PDHCP.ip4 yip ++ PDHCP.ip4 sip ++ PDHCP.ip4 gip ++ copyInto (zeros 16) hw ++ pFitTo 64 sname
+    ++ pFitTo 128 file ++ be32 PDHCP.magic
+
+/-- the wire form of an address field always has 4 bytes -/
+theorem ip4_length (ip : Bytes) : (PDHCP.ip4 ip).length = 4 := by
+  simp [PDHCP.ip4, copyInto_length]
+
+/-- a 4-byte address is written as it is -/
+theorem ip4_four (ip : Bytes) (h : ip.length = 4) : PDHCP.ip4 ip = ip := by
+  simp [PDHCP.ip4, pIpTo4_four ip h, copyInto, h, zeros, List.take_of_length_le (Nat.le_of_eq h)]
+
+/-- the wire form is a fixed point: writing it again changes nothing -/
+theorem ip4_idem (ip : Bytes) : PDHCP.ip4 (PDHCP.ip4 ip) = PDHCP.ip4 ip := ip4_four _ (ip4_length ip)
+
+/-- a 16-byte v4-mapped address `::ffff:a.b.c.d` (what `net.IPv4(a, b, c, d)` and `net.ParseIP` return) is written as
+    the four bytes `a b c d` -/
+theorem ip4_mapped (a b c d : UInt8) : PDHCP.ip4 (ipV4Mapped a b c d) = [a, b, c, d] := rfl
+
+/-- any other length (for instance a 16-byte address that is not v4-mapped, or an empty slice): `To4()` is nil, nothing
+    is copied, four zero bytes are written -/
+theorem ip4_other (ip : Bytes) (h : pIpTo4? ip = none) : PDHCP.ip4 ip = zeros 4 := by
+  simp [PDHCP.ip4, pIpTo4, h, copyInto]
 
 theorem copyInto_zeros (n : Nat) (hw : Bytes) (h : hw.length ≤ n) : copyInto (zeros n) hw = hw ++ zeros (n - hw.length) := by
   simp [copyInto, zeros, List.take_of_length_le h]
 
-theorem dhcpFixed_length (op ht hl ho xid secs fl : Nat) (cip yip sip gip hw sname file : Bytes)
-    (c1 : cip.length = 4) (c2 : yip.length = 4) (c3 : sip.length = 4) (c4 : gip.length = 4) :
+theorem dhcpFixed_length (op ht hl ho xid secs fl : Nat) (cip yip sip gip hw sname file : Bytes) :
     (dhcpFixed op ht hl ho xid secs fl cip yip sip gip hw sname file).length = 240 := by
-  simp [dhcpFixed, copyInto_length, pFitTo, c1, c2, c3, c4]
+  simp [dhcpFixed, copyInto_length, pFitTo, ip4_length]
   omega
+
+/-- only the 4-byte wire form of each address reaches the wire -/
+theorem dhcpFixed_ip4 (op ht hl ho xid secs fl : Nat) (cip yip sip gip hw sname file : Bytes) :
+    dhcpFixed op ht hl ho xid secs fl cip yip sip gip hw sname file
+      = dhcpFixed op ht hl ho xid secs fl (PDHCP.ip4 cip) (PDHCP.ip4 yip) (PDHCP.ip4 sip) (PDHCP.ip4 gip) hw sname file := by
+  simp only [dhcpFixed, ip4_idem]
 
 /-- only the first 16 bytes of the hardware address reach the wire -/
 theorem dhcpFixed_hw_take (op ht hl ho xid secs fl : Nat) (cip yip sip gip hw sname file : Bytes) :
@@ -306,30 +338,44 @@ theorem dhcpFixed_hw_take (op ht hl ho xid secs fl : Nat) (cip yip sip gip hw sn
       rw [List.drop_eq_nil_of_le (by simp; omega), List.drop_eq_nil_of_le (by simp; omega)]
   simp only [dhcpFixed, this]
 
-/-- `DHCP.Write` on a fixed part as `DHCP.Read` writes it (hardware address of at most 16 bytes, zero-padded to 16)
-    followed by option bytes: a `HardwareLen` above 16 is rejected; otherwise every fixed field comes back, the hardware
-    address is the first `HardwareLen` bytes of the padded 16, the options are what `DHCPParseOptions` makes of the rest,
-    and the byte count is the whole input -/
+/-- `DHCP.Write` on a fixed part as `DHCP.Read` writes it (addresses of any length in their 4-byte wire form, hardware
+    address of at most 16 bytes, zero-padded to 16) followed by option bytes: a `HardwareLen` above 16 is rejected;
+    otherwise every fixed field comes back, each address in its 4-byte wire form, the hardware address is the first
+    `HardwareLen` bytes of the padded 16, the options are what `DHCPParseOptions` makes of the rest, and the byte count is
+    the whole input -/
 theorem dhcp_write_fixed_gen (recv : V) (op ht hl ho xid secs fl : Nat) (cip yip sip gip hw sname file optsB : Bytes)
     (h1 : op < 256) (h2 : ht < 256) (h3 : hl < 256) (h4 : ho < 256) (h5 : xid < 4294967296) (h6 : secs < 65536)
-    (h7 : fl < 65536) (c1 : cip.length = 4) (c2 : yip.length = 4) (c3 : sip.length = 4) (c4 : gip.length = 4)
-    (c5 : hw.length ≤ 16) (c7 : sname.length = 64) (c8 : file.length = 128) :
+    (h7 : fl < 65536) (c5 : hw.length ≤ 16) (c7 : sname.length = 64) (c8 : file.length = 128) :
     PDHCP.write recv (dhcpFixed op ht hl ho xid secs fl cip yip sip gip hw sname file ++ optsB) =
       if hl > 16 then .err else
       (PDhcpOpt.parseOptions (Slice.exact optsB) >>= fun opts =>
-        .ok (.obj "p.DHCP" [.num op, .num ht, .num hl, .num ho, .num xid, .num secs, .num fl, .bytes cip, .bytes yip,
-          .bytes sip, .bytes gip, .bytes ((hw ++ zeros (16 - hw.length)).take hl), .bytes sname, .bytes file, .list opts],
+        .ok (.obj "p.DHCP" [.num op, .num ht, .num hl, .num ho, .num xid, .num secs, .num fl, .bytes (PDHCP.ip4 cip),
+          .bytes (PDHCP.ip4 yip), .bytes (PDHCP.ip4 sip), .bytes (PDHCP.ip4 gip),
+          .bytes ((hw ++ zeros (16 - hw.length)).take hl), .bytes sname, .bytes file, .list opts],
           240 + optsB.length)) := by
-  have hlen := dhcpFixed_length op ht hl ho xid secs fl cip yip sip gip hw sname file c1 c2 c3 c4
+  have hlen := dhcpFixed_length op ht hl ho xid secs fl cip yip sip gip hw sname file
   obtain ⟨b, hb⟩ : ∃ b, b = dhcpFixed op ht hl ho xid secs fl cip yip sip gip hw sname file ++ optsB := ⟨_, rfl⟩
   have hbl : b.length = 240 + optsB.length := by rw [hb, List.length_append, hlen]
   rw [← hb]
-  have hb' : b = n8 op :: n8 ht :: n8 hl :: n8 ho :: (be32 (n32 xid) ++ (be16 (n16 secs) ++ (be16 (n16 fl) ++ (cip ++ (yip ++ (sip
-      ++ (gip ++ ((hw ++ zeros (16 - hw.length)) ++ (sname ++ (file ++ (be32 PDHCP.magic ++ optsB))))))))))) := by
-    rw [hb, dhcpFixed, copyInto_zeros 16 hw (by omega), pFitTo_self 64 sname c7, pFitTo_self 128 file c8]
+  have c1 := ip4_length cip
+  have c2 := ip4_length yip
+  have c3 := ip4_length sip
+  have c4 := ip4_length gip
+  obtain ⟨a1, ha1⟩ : ∃ a, a = PDHCP.ip4 cip := ⟨_, rfl⟩
+  obtain ⟨a2, ha2⟩ : ∃ a, a = PDHCP.ip4 yip := ⟨_, rfl⟩
+  obtain ⟨a3, ha3⟩ : ∃ a, a = PDHCP.ip4 sip := ⟨_, rfl⟩
+  obtain ⟨a4, ha4⟩ : ∃ a, a = PDHCP.ip4 gip := ⟨_, rfl⟩
+  rw [← ha1] at c1 ⊢
+  rw [← ha2] at c2 ⊢
+  rw [← ha3] at c3 ⊢
+  rw [← ha4] at c4 ⊢
+  have hb' : b = n8 op :: n8 ht :: n8 hl :: n8 ho :: (be32 (n32 xid) ++ (be16 (n16 secs) ++ (be16 (n16 fl) ++ (a1 ++ (a2 ++ (a3
+      ++ (a4 ++ ((hw ++ zeros (16 - hw.length)) ++ (sname ++ (file ++ (be32 PDHCP.magic ++ optsB))))))))))) := by
+    rw [hb, dhcpFixed, copyInto_zeros 16 hw (by omega), pFitTo_self 64 sname c7, pFitTo_self 128 file c8,
+      ← ha1, ← ha2, ← ha3, ← ha4]
     simp only [List.append_assoc, List.cons_append, List.nil_append]
-  have d4 : b.drop 4 = be32 (n32 xid) ++ (be16 (n16 secs) ++ (be16 (n16 fl) ++ (cip ++ (yip ++ (sip
-      ++ (gip ++ ((hw ++ zeros (16 - hw.length)) ++ (sname ++ (file ++ (be32 PDHCP.magic ++ optsB)))))))))) := by
+  have d4 : b.drop 4 = be32 (n32 xid) ++ (be16 (n16 secs) ++ (be16 (n16 fl) ++ (a1 ++ (a2 ++ (a3
+      ++ (a4 ++ ((hw ++ zeros (16 - hw.length)) ++ (sname ++ (file ++ (be32 PDHCP.magic ++ optsB)))))))))) := by
     rw [hb']; rfl
   have d8 := drop_step b 4 4 _ _ d4 rfl
   have d10 := drop_step b 8 2 _ _ d8 rfl
@@ -372,7 +418,7 @@ theorem dhcp_write_fixed_gen (recv : V) (op ht hl ho xid secs fl : Nat) (cip yip
       u8_n8 op h1, u8_n8 ht h2, u8_n8 hl h3, u8_n8 ho h4, u32_n32 xid h5, u16_n16 secs h6, u16_n16 fl h7]
     rfl
 
-/-- … for a hardware address of exactly `HardwareLen ≤ 16` bytes: it comes back as it is -/
+/-- … for 4-byte addresses and a hardware address of exactly `HardwareLen ≤ 16` bytes: they come back as they are -/
 theorem dhcp_write_fixed (recv : V) (op ht hl ho xid secs fl : Nat) (cip yip sip gip hw sname file optsB : Bytes)
     (h1 : op < 256) (h2 : ht < 256) (h3 : hl < 256) (h4 : ho < 256) (h5 : xid < 4294967296) (h6 : secs < 65536)
     (h7 : fl < 65536) (c1 : cip.length = 4) (c2 : yip.length = 4) (c3 : sip.length = 4) (c4 : gip.length = 4)
@@ -382,7 +428,8 @@ theorem dhcp_write_fixed (recv : V) (op ht hl ho xid secs fl : Nat) (cip yip sip
         .ok (.obj "p.DHCP" [.num op, .num ht, .num hl, .num ho, .num xid, .num secs, .num fl, .bytes cip, .bytes yip,
           .bytes sip, .bytes gip, .bytes hw, .bytes sname, .bytes file, .list opts], 240 + optsB.length)) := by
   rw [dhcp_write_fixed_gen recv op ht hl ho xid secs fl cip yip sip gip hw sname file optsB h1 h2 h3 h4 h5 h6 h7
-    c1 c2 c3 c4 (by omega) c7 c8, if_neg (by omega), take_prefix hl hw _ c5]
+    (by omega) c7 c8, if_neg (by omega), take_prefix hl hw _ c5, ip4_four cip c1, ip4_four yip c2, ip4_four sip c3,
+    ip4_four gip c4]
 
 /-- `DHCPMarshalOption` of the end marker -/
 theorem dhcp_marshal_end : PDhcpOpt.marshalOption (PDhcpOpt.mk (n8 Gen.protocol.DHCP_OPT_END) []) = .ok [255] := rfl
@@ -428,7 +475,7 @@ theorem take_app_ge (bs tail : Bytes) (n : Nat) (h : bs.length ≤ n) :
     (bs ++ tail).take n = bs ++ tail.take (n - bs.length) := by
   rw [List.take_append, List.take_of_length_le h]
 
-/-- `DHCP.Len()` of a message whose options are carryable: 240 + Σ (data length + 2) + 1 (for the end marker) -/
+/-- `DHCP.Len()` of a message whose options are carryable: 240 + Σ option bytes + 1 (for the end marker) -/
 theorem dhcp_len (f0 f1 f2 f3 f4 f5 f6 f7 f8 f9 f10 f11 f12 f13 : V) (os : List V) (hwf : ∀ o ∈ os, DhcpOptOK o)
     (hsz : 240 + (os.map dhcpOptLen).sum + 1 < 65536) :
     ∃ l, PDHCP.len (.obj "p.DHCP" [f0, f1, f2, f3, f4, f5, f6, f7, f8, f9, f10, f11, f12, f13, .list os]) = .ok l ∧
@@ -441,13 +488,49 @@ theorem dhcp_len (f0 f1 f2 f3 f4 f5 f6 f7 f8 f9 f10 f11 f12 f13 : V) (os : List 
     intro o ho
     obtain ⟨t, d, rfl, _, h2, _⟩ := dhcp_opt_shape o (hwf o ho)
     simp only [Function.comp, dhcpOptLen]
-    exact n16_toNat _ (by omega)
+    exact n16_toNat _ (by split <;> omega)
   have hs := sum16_toNat (os.map (fun o => n16 (dhcpOptLen o))) (by rw [hmap]; omega)
   rw [hmap] at hs
   simp only [Bool.false_eq_true, if_false, UInt16.toNat_add, hs]
   have h240 : (240 : UInt16).toNat = 240 := rfl
   have h1 : (1 : UInt16).toNat = 1 := rfl
   rw [h240, h1]
+  omega
+
+/-- `Len()` of the explicit end option (whatever data it holds) is 1, and the size pass over carryable options followed
+    by it gives their sizes and that 1 -/
+theorem dhcp_optLens_end (os : List V) (hwf : ∀ o ∈ os, DhcpOptOK o) (d : Bytes) :
+    PDHCP.optLens (os ++ [.obj "p.dhcpoption" [.num 255, .bytes d]]) = .ok (os.map (fun o => n16 (dhcpOptLen o)) ++ [1]) := by
+  induction os with
+  | nil => rfl
+  | cons o os ih =>
+    have i1 := ih (fun x hx => hwf x (by simp [hx]))
+    simp only [List.cons_append, PDHCP.optLens, dhcp_opt_len o (hwf o (by simp)), i1, Res.bind_ok]; rfl
+
+/-- `DHCP.Len()` of a message whose carryable options are followed by an explicit end option: the same
+    240 + Σ option bytes + 1 as without it (the explicit end option counts 1, the implicit one is then not added) -/
+theorem dhcp_len_end (f0 f1 f2 f3 f4 f5 f6 f7 f8 f9 f10 f11 f12 f13 : V) (os : List V) (hwf : ∀ o ∈ os, DhcpOptOK o)
+    (hsz : 240 + (os.map dhcpOptLen).sum + 1 < 65536) (d : Bytes) :
+    ∃ l, PDHCP.len (.obj "p.DHCP" [f0, f1, f2, f3, f4, f5, f6, f7, f8, f9, f10, f11, f12, f13,
+        .list (os ++ [.obj "p.dhcpoption" [.num 255, .bytes d]])]) = .ok l ∧
+      l.toNat = 240 + (os.map dhcpOptLen).sum + 1 := by
+  obtain ⟨_, e2⟩ := dhcp_opts_enc_end os hwf d
+  have e3 := dhcp_optLens_end os hwf d
+  refine ⟨_, by simp only [PDHCP.len, e2, e3, Res.bind_ok]; rfl, ?_⟩
+  have hmap : ((os.map (fun o => n16 (dhcpOptLen o)) ++ [1]).map UInt16.toNat) = os.map dhcpOptLen ++ [1] := by
+    rw [List.map_append, List.map_map]
+    congr 1
+    apply List.map_congr_left
+    intro o ho
+    obtain ⟨t, d, rfl, _, h2, _⟩ := dhcp_opt_shape o (hwf o ho)
+    simp only [Function.comp, dhcpOptLen]
+    exact n16_toNat _ (by split <;> omega)
+  have hs := sum16_toNat (os.map (fun o => n16 (dhcpOptLen o)) ++ [1]) (by rw [hmap]; simp; omega)
+  rw [hmap] at hs
+  simp only [if_true, UInt16.toNat_add, hs, List.sum_append, List.sum_cons, List.sum_nil]
+  have h240 : (240 : UInt16).toNat = 240 := rfl
+  have h0 : (0 : UInt16).toNat = 0 := rfl
+  rw [h240, h0]
   omega
 
 end OFV.Lemmas.RT
